@@ -162,7 +162,8 @@ func (c *checkCtx) runFuncs(u Unit) {
 			}
 			x := sym.NewExec(c.prog.Prog, c.prog.Specs)
 			t0 := time.Now()
-			fr.Report = x.VerifyFunc(fn)
+			fr.Report = x.Verify(fn)
+			fr.Closures = fr.Report.Closures
 			fr.GenSecs = time.Since(t0).Seconds()
 			var ps []*sym.Prepared
 			for _, o := range fr.Report.Obligations {
